@@ -340,6 +340,9 @@ def parse_mir(text):
         pm = re.match(r"const (.*::promoted\[\d+\]): (.*) = \{$", line.rstrip())
         if pm:     # promoted constant: a zero-argument body evaluated where it is used
             line = lines[i] = f"fn {pm.group(1)}() -> {pm.group(2)} {{"
+        cm = re.match(r"const ([\w:]+): (.*) = \{$", line.rstrip())
+        if cm and not pm:   # named constant with a body: a zero-argument function `const::<last path segment>`
+            line = lines[i] = f"fn const::{cm.group(1).split('::')[-1]}() -> {cm.group(2)} {{"
         if line.startswith("fn ") and line.rstrip().endswith("{"):
             j = i + 1
             while j < n and lines[j] != "}":
